@@ -68,6 +68,10 @@ def main():
                              verbose=False)
     with ThreadPoolExecutor(4) as ex:
         for d, res in ex.map(bjob, benign):
+            if res is None:
+                print('%-60s PATCH DOES NOT APPLY' % d)
+                noisy.append(d)
+                continue
             loud = [p for p, (rc, _) in res.items() if rc != 0]
             print('%-60s %s' % (d, 'SILENT' if not loud else 'FALSE ALARM in %s' % loud))
             if loud:
